@@ -100,8 +100,29 @@ def _build_unit(pid, uname, u, d):
     flags = CXX_BASE + u.get('cxxflags', [])
     if not any(f.startswith('-fexceptions') for f in flags) and '-fno-exceptions' not in flags and not u.get('exceptions'):
         flags = flags + ['-fno-exceptions']
-    rc, out, dt, to = sh(flags + [wrapper, '-o', os.path.join(d, 'w.ll')], timeout=300)
-    if rc != 0: raise Inconclusive('clang failed for %s:\n%s' % (u['wrapper'], out[-3000:]))
+    cuts = u.get('cut', [])
+    if cuts:
+        # two-stage: unoptimised IR -> mark cut functions noinline -> opt -O1, so that a cut callee is never inlined
+        f2 = []
+        for i, f in enumerate(flags):
+            if f == '-mllvm' and flags[i + 1].startswith('-inline-threshold'): continue
+            if f.startswith('-inline-threshold'): continue
+            f2.append(f)
+        rc, out, dt, to = sh(f2 + ['-Xclang', '-disable-llvm-passes', wrapper, '-o', os.path.join(d, 'w.raw.ll')], timeout=300)
+        if rc != 0: raise Inconclusive('clang failed for %s:\n%s' % (u['wrapper'], out[-3000:]))
+        lines = open(os.path.join(d, 'w.raw.ll')).read().split('\n')
+        ncut = 0
+        for i, line in enumerate(lines):
+            if line.startswith('define ') and any(c in line.split('(')[0] for c in cuts):
+                lines[i] = re.sub(r'\)( [^()]*)?\{$', lambda m: ') noinline' + (m.group(1) or ' ') + '{', line); ncut += 1
+        if ncut == 0: raise Inconclusive('cut functions %s not found in IR of %s' % (cuts, u['wrapper']))
+        open(os.path.join(d, 'w.raw.ll'), 'w').write('\n'.join(lines))
+        rc, out, dt, to = sh(['opt-14', '-O1', '-disable-loop-unrolling', '-inline-threshold=%d' % u.get('inline_threshold', 100000), '-S',
+                              os.path.join(d, 'w.raw.ll'), '-o', os.path.join(d, 'w.ll')], timeout=300)
+        if rc != 0: raise Inconclusive('opt -O1 failed:\n' + out[-3000:])
+    else:
+        rc, out, dt, to = sh(flags + [wrapper, '-o', os.path.join(d, 'w.ll')], timeout=300)
+        if rc != 0: raise Inconclusive('clang failed for %s:\n%s' % (u['wrapper'], out[-3000:]))
     # functions encoded: -O0 call graph
     flags0 = [f for f in flags if f != '-O1'] + ['-O0']
     rc, out, dt, to = sh(flags0 + [wrapper, '-o', os.path.join(d, 'w0.ll')], timeout=300)
@@ -122,6 +143,7 @@ def _build_unit(pid, uname, u, d):
         src = 'w.u.ll'
     cmd = [sys.executable, os.path.join(TOOLS, 'ir2c.py'), os.path.join(d, src), os.path.join(d, 'w')]
     if u.get('tso'): cmd.append('--tso')
+    for c in cuts: cmd += ['--cut', c]
     for fn, sfx in (u.get('threads') or {}).items():
         cmd += ['--thread', fn + (':' + ','.join(sfx) if sfx and sfx != [''] else '')]
     rc, out, dt, to = sh(cmd, timeout=300)
@@ -168,6 +190,8 @@ def classify(rc, out, to, props):
     unw = [k for k, p in props.items() if 'unwinding assertion' in p['desc'] and p['status'] != 'SUCCESS']
     fails = [k for k, p in props.items() if p['status'] != 'SUCCESS' and p['desc'] != 'VP_WITNESS' and k not in unw]
     if unw: return 'inconclusive', 'unwinding bound too small: %s' % unw[:3], []
+    nobody = [p['desc'] for k, p in props.items() if p['desc'].startswith('no body for') and p['status'] != 'SUCCESS']
+    if nobody: return 'inconclusive', 'reachable call without a stub: %s' % nobody[:5], []
     if fails: return 'fail', '; '.join('%s: %s' % (k, props[k]['desc']) for k in fails[:5]), fails
     if not wit: return 'inconclusive', 'harness has no VP_REACHED() witness', []
     if any(props[k]['status'] != 'FAILURE' for k in wit):
@@ -187,7 +211,7 @@ def native_build(h, udir, pid, defines, outbin, extra_defs=()):
            '-I', udir, '-I', RT, '-I', os.path.join(VERIF, 'props', pid)]
     for k, v in defines.items():
         cmd.append('-D%s=%s' % (k, v) if v is not None else '-D' + k)
-    cmd += list(extra_defs) + [hsrc, os.path.join(udir, 'w.c'), os.path.join(RT, 'native.c'), '-o', outbin]
+    cmd += list(extra_defs) + [hsrc, os.path.join(udir, 'w.c'), os.path.join(RT, 'native.c'), '-Wl,--unresolved-symbols=ignore-all', '-no-pie', '-o', outbin]
     return sh(cmd, timeout=600)
 
 def scen_name(sc):
@@ -262,9 +286,9 @@ def selftest_unit(pid, uname, u, unit):
     if rc != 0: raise Inconclusive('selftest: real build failed: ' + out[-1500:])
     stubs = os.path.join(VERIF, 'props', pid, u.get('selftest_stubs', 'selftest_stubs.c'))
     stubs = [stubs] if os.path.exists(stubs) else []
-    rc, out, dt, to = sh(['gcc', '-O1', '-w', '-DVP_SELFTEST_REAL', '-I', d, '-I', RT, main_c] + stubs + [os.path.join(d, 'w_real.o'), '-lstdc++', '-lpthread', '-o', os.path.join(d, 'st_real')], timeout=300)
+    rc, out, dt, to = sh(['gcc', '-O1', '-w', '-DVP_SELFTEST_REAL', '-I', d, '-I', RT, main_c] + stubs + [os.path.join(d, 'w_real.o'), '-lstdc++', '-lpthread', '-Wl,--unresolved-symbols=ignore-all', '-no-pie', '-o', os.path.join(d, 'st_real')], timeout=300)
     if rc != 0: raise Inconclusive('selftest: real link failed: ' + out[-1500:])
-    rc, out, dt, to = sh(['gcc', '-O1', '-w', '-I', d, '-I', RT, main_c] + stubs + [os.path.join(d, 'w.c'), '-o', os.path.join(d, 'st_gen')], timeout=300)
+    rc, out, dt, to = sh(['gcc', '-O1', '-w', '-I', d, '-I', RT, main_c] + stubs + [os.path.join(d, 'w.c'), '-Wl,--unresolved-symbols=ignore-all', '-no-pie', '-o', os.path.join(d, 'st_gen')], timeout=300)
     if rc != 0: raise Inconclusive('selftest: generated-C build failed: ' + out[-1500:])
     r1 = sh([os.path.join(d, 'st_real')], timeout=120); r2 = sh([os.path.join(d, 'st_gen')], timeout=120)
     if r1[0] != 0 or r2[0] != 0: raise Inconclusive('selftest crashed: real rc=%s gen rc=%s %s %s' % (r1[0], r2[0], r1[1][-300:], r2[1][-300:]))
